@@ -1,6 +1,53 @@
-(* Props/Properties_C18.v - statements only; see DESIGN.md section 8 C18. *)
-From Adm Require Import Heap.Exec Heap.More gen.PlansGen Heap.PlanChecks.
+(* Props/Properties_C18.v - C18: route tracing returns exactly the programme-to-channelFormat reference paths.
+   Statements only; proofs in Heap/Routes.v.  [trace] is the model of RouteTracer::run with the default strategy
+   (Heap/More.v), tied to libadm by the differential run of the check (same documents, routes compared as lists of
+   element handles in order; equality and hashes of equal routes are checked on libadm's route objects).
+   The theorems hold for every state - any graph, shared sub-graphs and empty branches included - whenever the
+   traversal returns (fuel exhaustion, i.e. a reference cycle, is excluded by the statement; acyclicity of every
+   reachable state is C06). *)
+From Adm Require Import Heap.Exec Heap.More Heap.Frame Heap.Routes.
 
-Theorem C18_plans_recognised : plans_problems = [] /\ add_plan_complete gen_plans = true /\ plans_typed gen_plans = true.
-Proof. exact (conj plans_recognised (conj gen_add_plan_complete gen_plans_typed)). Qed.
-Print Assumptions C18_plans_recognised.
+(* soundness and completeness: a route is returned if and only if it is a path of the reference graph from the
+   start element to a channel format, with the elements in path order *)
+Theorem C18_routes_are_exactly_the_paths : forall f s h rs, trace f s h [] = Some rs ->
+  forall r, In r rs <-> Path s h r.
+Proof.
+  exact (fun f s h rs H r => conj (fun Hin => match proj1 (trace_exact f s h [] rs H r) Hin with ex_intro _ p (conj Hp E) => eq_ind_r (Path s h) Hp E end)
+                                  (fun Hp => proj2 (trace_exact f s h [] rs H r) (ex_intro _ r (conj Hp eq_refl)))).
+Qed.
+Print Assumptions C18_routes_are_exactly_the_paths.
+
+(* with a prefix: what the recursive calls return *)
+Theorem C18_routes_with_prefix : forall f s h route rs, trace f s h route = Some rs ->
+  forall r, In r rs <-> exists p, Path s h p /\ r = route ++ p.
+Proof. exact trace_exact. Qed.
+Print Assumptions C18_routes_with_prefix.
+
+(* one route per path: when no reference list holds an element twice, no route is returned twice *)
+Theorem C18_no_route_twice : forall s,
+  (forall h e rk, get_elem s h = Some e -> NoDup (erefs e rk)) ->
+  (forall h e x, get_elem s h = Some e -> In x (erefs e ObjPack) -> In x (erefs e ObjObj) -> False) ->
+  (forall h e x, get_elem s h = Some e -> In x (erefs e PackChan) -> In x (erefs e PackPack) -> False) ->
+  forall f h route rs, trace f s h route = Some rs -> NoDup rs.
+Proof. exact trace_nodup. Qed.
+Print Assumptions C18_no_route_twice.
+
+(* the result does not depend on how much fuel is left over *)
+Theorem C18_more_fuel_same_routes : forall f s h route rs, trace f s h route = Some rs -> trace (S f) s h route = Some rs.
+Proof. exact trace_fuel_mono. Qed.
+Print Assumptions C18_more_fuel_same_routes.
+
+(* a diamond: programme -> content -> two objects sharing one pack -> nested pack -> channel: two routes *)
+Example C18_diamond :
+  let e k refs := mkElem k None (mkId 0 0 0) 0 refs (fun _ => []) false None None false 0 in
+  let none := fun _ : refkind => @nil positive in
+  let s := fold_left (fun st p => put_elem st (fst p) (snd p))
+             [(1%positive, e KProg (fun rk => match rk with ProgCont => [2%positive] | _ => [] end));
+              (2%positive, e KCont (fun rk => match rk with ContObj => [3%positive; 4%positive] | _ => [] end));
+              (3%positive, e KObj (fun rk => match rk with ObjPack => [5%positive] | _ => [] end));
+              (4%positive, e KObj (fun rk => match rk with ObjPack => [5%positive] | _ => [] end));
+              (5%positive, e KPack (fun rk => match rk with PackPack => [6%positive] | _ => [] end));
+              (6%positive, e KPack (fun rk => match rk with PackChan => [7%positive] | _ => [] end));
+              (7%positive, e KChan none)] empty_state in
+  trace 10 s 1 [] = Some [[1; 2; 3; 5; 6; 7]; [1; 2; 4; 5; 6; 7]]%positive.
+Proof. vm_compute. reflexivity. Qed.
